@@ -59,6 +59,7 @@ MAP = {
     "wrap_ref": [("src/blanket.rs", r"Parser<'src, I, O, E> for &T")], "wrap_box": [("src/lib.rs", r"for ::alloc::boxed::Box<T>")],
     "wrap_rc": [("src/lib.rs", r"for ::alloc::rc::Rc<T>")], "wrap_arc": [("src/lib.rs", r"for ::alloc::sync::Arc<T>")],
     "wrap_boxed": [("src/lib.rs", r"Parser<'src, I, O, E> for Boxed<'src, '_, I, O, E>")], "wrap_either": [("src/either.rs", r"for Either<L, R>")],
+    "memoized": [(C, r"Parser<'src, I, O, E> for Memoized<A>")],
     "cache_": [("src/cache.rs", r"pub fn get<'src>")],
     "recursive_indirect": [("src/recursive.rs", r"for Recursive<Indirect<"), ("src/recursive.rs", r"pub fn set\(")], "recursive_define": [("src/recursive.rs", r"pub fn set\("), ("src/recursive.rs", r"pub fn define<")],
     "recursive_direct": [("src/recursive.rs", r"for Recursive<Direct<"), ("src/recursive.rs", r"pub fn recursive<")], "recursive_unroll": [("src/recursive.rs", r"pub fn recursive<")],
